@@ -58,12 +58,17 @@ def load_dot(path, keep_vars=None):
             m = _node.match(line)
             if m:
                 n = nid(m.group(1))
-                st = tlaval.parse_state(_unesc(m.group(2)))
-                if keep_vars:
-                    st = {k: v for k, v in st.items() if k in keep_vars}
-                states[n] = st
+                states[n] = tlaval.parse_state(_unesc(m.group(2)))
                 if 'style = filled' in m.group(3):
                     init.append(n)
+    # TLC with several workers writes nodes and edges in a run-dependent order: canonicalise
+    order = sorted(range(len(states)), key=lambda i: json.dumps(states[i], sort_keys=True, default=str))
+    rank = {old: new for new, old in enumerate(order)}
+    states = [states[i] for i in order]
+    if keep_vars:
+        states = [{k: v for k, v in st.items() if k in keep_vars} for st in states]
+    init = sorted(rank[i] for i in init)
+    edges = sorted(([rank[e[0]], rank[e[1]], e[2], e[3]] for e in edges), key=lambda e: (e[0], e[2], json.dumps(e[3], default=str), e[1]))
     return states, init, edges
 
 
